@@ -3,6 +3,7 @@ CONSTANTS
   Atomic = TRUE
   SkipTruth = FALSE
   MaxRuns = 2
+  BySpelling = FALSE
 INVARIANT Agreement
 INVARIANT TruthUntouched
 INVARIANT ReportTruthful
